@@ -67,6 +67,10 @@ func msgText(m string) (string, bool) {
 		return "-> recipient-stanza 0 vtype arg1 arg2\n" + body("stanza body one"), true
 	case "rs_ok2":
 		return "-> recipient-stanza 0 vtype2\n\n", true
+	case "rs_long":
+		return "-> recipient-stanza 0 vtype3 " + strings.Repeat("a", 5000) + "\n" + body("x"), true
+	case "unknown_long":
+		return "-> frobnicate " + strings.Repeat("z", 9000) + "\n\n", true
 	case "rs_idx1":
 		return "-> recipient-stanza 1 vtype arg1\n" + body("x"), true
 	case "rs_neg":
